@@ -65,3 +65,30 @@ def require_fresh_lookups(rep: Report):
     from . import c08
 
     c08.run(rep, only=ELEMENT_LAYER_LOOKUPS)
+
+
+# ------------------------------------------------------------ parallel helper
+import multiprocessing as _mp
+import os as _os
+
+SHARED: dict = {}
+
+
+def pmap(fn, items, shared=None, jobs=None):
+    """map `fn` (a module-level function) over items in forked workers; `shared` is
+    visible to the workers as common.SHARED (inherited by fork, not pickled)."""
+    global SHARED
+    SHARED = shared or {}
+    items = list(items)
+    jobs = jobs or min(16, _os.cpu_count() or 1)
+    if jobs <= 1 or len(items) < 16:
+        return [fn(x) for x in items]
+    ctx = _mp.get_context("fork")
+    with ctx.Pool(jobs) as pool:
+        return pool.map(fn, items, chunksize=max(1, len(items) // (jobs * 4)))
+
+
+def apply_verdicts(rep: Report, verdicts):
+    """verdicts: iterable of (ok, rule, instance, construct, detail, key)"""
+    for ok, rule, instance, construct, detail, key in verdicts:
+        rep.check(ok, rule, instance, construct, detail, key=key)
